@@ -77,6 +77,8 @@ Module C05Range (V : UsualOrderedTypeFull).
   Theorem range_has_atomic_singletons : singleton_atomic range_vs range_lawful.
   Proof. exact range_singleton_atomic. Qed.
 End C05Range.
+From PG Require Import Model.Instances.
+Module C05Z := C05Range ZV.
 Theorem bitset_has_atomic_singletons : singleton_atomic bitset_vs bitset_lawful.
 Proof. exact bitset_singleton_atomic. Qed.
 
@@ -99,5 +101,6 @@ Print Assumptions resolve_ok_or_nosolution.
 Print Assumptions singleton_atomic_unfold.
 Print Assumptions no_failure.
 Print Assumptions derivation_tree_always_built.
+Print Assumptions C05Z.range_has_atomic_singletons.
 Print Assumptions bitset_has_atomic_singletons.
 Print Assumptions atomic_singletons_needed_refuted.
